@@ -1,4 +1,5 @@
 """Channel step scenarios (L2): generator, runner, canonicalisation, trace monitors (C06, C07, C08)."""
+import os
 import re
 from . import core
 
@@ -311,3 +312,73 @@ def monitors(scenario, trace, status):
                 if dropped.get(tg, 0) != 1:
                     probs["C07"].append("value %d was dropped %d times over the whole run incl. the channel's drop (exactly once expected)" % (tg, dropped.get(tg, 0)))
     return probs
+
+
+# ------------------------------------------------------------------ the real channel under Miri
+
+
+def miri_run(seeds, per=12, timeout=1500):
+    """run harness-miri (the real Channel, std atomics as declared, no shim) under Miri's C11 interpreter with
+    weak-memory emulation and the data-race detector, for a range of scheduler seeds; returns (ok, text)"""
+    import os, subprocess
+    d = os.path.join(core.VERIF, "harness-miri")
+    lock = os.path.join(core.REPO, "Cargo.lock")
+    if os.path.exists(lock):
+        import shutil
+        shutil.copyfile(lock, os.path.join(d, "Cargo.lock"))
+    env = dict(os.environ)
+    env["MIRIFLAGS"] = "-Zmiri-many-seeds=%s -Zmiri-preemption-rate=0.2" % seeds
+    env["CARGO_NET_OFFLINE"] = "true"
+    env.pop("RUSTFLAGS", None)
+    p = subprocess.run(["cargo", "+nightly", "miri", "run", "--offline", "--quiet", "--", "all", str(per)], cwd=d, env=env,
+                       capture_output=True, text=True, timeout=timeout)
+    text = p.stdout + p.stderr
+    return p.returncode == 0 and "error" not in p.stdout, text
+
+
+def miri_classify(text):
+    """which property a Miri failure speaks about, and one line of it"""
+    line = next((l.strip() for l in text.splitlines() if l.startswith("error: Undefined Behavior")), None)
+    if line:
+        return "C07", line[:300]
+    pan = next((l.strip() for l in text.splitlines() if "panicked at" in l), None)
+    nxt = ""
+    ls = text.splitlines()
+    for i, l in enumerate(ls):
+        if "panicked at" in l and i + 1 < len(ls):
+            nxt = ls[i + 1].strip()
+            break
+    msg = ((pan or "") + " " + nxt).strip()[:300]
+    if "received twice" in msg or "never sent" in msg or "out of order" in msg:
+        return "C06", msg
+    if "dropped" in msg:
+        return "C07", msg
+    if pan:
+        return "C08", msg
+    return "?", (next((l.strip() for l in ls if l.startswith("error")), "miri run failed") )[:300]
+
+
+def miri_stage(pid, tier):
+    """returns (evaluations, failures, note)"""
+    nseeds = 6 if tier == "quick" else 48
+    try:
+        ok, text = miri_run("0..%d" % nseeds)
+    except Exception as e:   # the tool is not there, or timed out: say so, do not guess
+        return 0, [], "miri stage not run: %s" % (str(e)[:120])
+    if ok:
+        return nseeds, [], "%d scheduler seeds clean" % nseeds
+    if "Undefined Behavior" not in text and "panicked at" not in text:
+        return 0, [], "miri stage not run: %s" % " ".join(text.split())[-200:]
+    # find the first failing seed, for the replay
+    seed = None
+    for k in range(nseeds):
+        ok1, t1 = miri_run("%d..%d" % (k, k + 1))
+        if not ok1:
+            seed, text = k, t1
+            break
+    who, line = miri_classify(text)
+    f = {"kind": "violation" if who in (pid, "?") else "disagreement", "key": "%s:miri" % pid,
+         "what": "the real Channel under Miri (C11 interpreter, weak-memory emulation, seed %s): %s" % (seed, line),
+         "payload": {"miri": True, "seed": seed, "text": text[-3000:],
+                     "replay_cmd": "cd /verif/harness-miri && MIRIFLAGS='-Zmiri-seed=%s -Zmiri-preemption-rate=0.2' cargo +nightly miri run --offline -- all 12" % seed}}
+    return nseeds, [f], "failing seed %s" % seed
